@@ -78,6 +78,12 @@ Definition chain_path (ch : list (path * oscope)) : path := match ch with (q, _)
 Definition chain_scope (ch : list (path * oscope)) : list occ :=
   match ch with (_, os) :: _ => obound os ++ oglobals os | [] => [] end.
 
+(* what is left as a hypothesis about the program term: the occurrence ids of its tokens are pairwise different
+   (they are the indices of the NAME tokens in the token stream) *)
+Definition unique_ids (p : program) : bool := nodupN (map t_id (toks p)).
+(* [n] is new: no identifier token is spelled n *)
+Definition fresh_name (p : program) (n : ident) : bool := negb (mem n (map t_name (toks p))).
+
 Definition well_tokened (nl : N) (p : program) : bool :=
   let ts := toks p in
   nodupN (map t_id ts)
